@@ -498,7 +498,7 @@ def compress_inputs(rng, tier, kind, hdr_flag_small):
         add(b, "exhaustive-2-letters")
     for b in small_alphabet_exhaustive((0x00, 0x7f, 0xff), l3):
         add(b, "exhaustive-3-letters")
-    # every length 0..600 of a run, of a period-2 and of a period-19 pattern (token/flag-group and length-form boundaries)
+    # every length 0..299 (thorough 0..699) of a run; every third length of a period-2 and of a period-19 pattern (token/flag-group and length-form boundaries)
     top = 300 if tier == "quick" else 700
     for n in range(0, top):
         add(b"\x55" * n, "all-lengths-run")
@@ -526,6 +526,12 @@ def compress_inputs(rng, tier, kind, hdr_flag_small):
     # implementation + oracle only (seeded change C08-4: a size guard `>= 0xFFFFFF`)
     for n, pat in size_boundary_inputs(kind, rng):
         cases.append(Case("%s 0 %s" % (kind, ptok(n, pat)), "size-boundary-16MiB"))
+    # F21: LZ10 compress must REJECT 2^24 bytes and more (Err(InputTooLarge)); compared with the model too (flag 1: the
+    # model's guard answers before anything is computed)
+    if kind == "lz10c":
+        for n, pat in ((1 << 24, bytes([rng.getrandbits(8)])), ((1 << 24) + 5, b"\x41\x42")):
+            cases.append(Case("lz10c 1 %s" % ptok(n, pat), "size-limit-F21"))
+            cases.append(Case("lz10f 1 %s" % ptok(n, pat), "size-limit-F21"))
     # the same entry points through the enum CompressionFormat (kind lz10f / lz13f): a slice of the family
     fkind = kind[:-1] + "f"
     for b in small_alphabet_exhaustive((0x61, 0x62), 7 if tier == "quick" else 10):
